@@ -209,6 +209,26 @@ class Interp(object):
         if isinstance(f, (classmethod, staticmethod)):
             return self.call_value(f.__func__, args, kwargs)
         s = getattr(f, '__self__', None)
+        nm = getattr(f, '__name__', '')
+        sym_args = _deep_symbolic(list(args)) or _deep_symbolic(kwargs)
+        if isinstance(s, (bytes, bytearray)) and nm == 'join' and args and sym_args:
+            # sep.join(items) over byte strings with symbolic parts: plain concatenation
+            out = SBytes()
+            for k, item in enumerate(self.iterate(args[0])):
+                if k:
+                    out = out + SBytes.of(bytes(s))
+                out = out + SBytes.of(item.data if type(item).__name__ == 'SByteArray' else item)
+            return out
+        import struct as _struct
+        if isinstance(s, _struct.Struct) and nm in ('pack', 'unpack') and sym_args:
+            from . import builtins_model as bm
+            if nm == 'pack':
+                return self.native(bm.struct_pack, [self, s.format, tuple(args)], {}, model_call=True)
+            return self.native(bm.struct_unpack, [self, s.format, args[0]], {}, model_call=True)
+        if isinstance(s, re.Pattern) and nm in ('match', 'search', 'fullmatch'):
+            ent = self.find_override(getattr(re, nm))
+            if ent is not None:             # a compiled pattern goes through the same regex model as re.<fn>(pattern, ...)
+                return self.native(ent[1], [self, s.pattern] + list(args), kwargs, model_call=True)
         if s is int and getattr(f, '__name__', '') == 'from_bytes':
             from . import builtins_model as bm
             return self.native(bm.int_from_bytes, [self] + list(args), kwargs, model_call=True)
@@ -711,7 +731,24 @@ class Interp(object):
         if isinstance(itf, types.FunctionType) and in_repo_scope(itf.__module__):
             return list(self.iterate(self.call_function(itf, [v], {})))
         try:
-            return v if lazy and isinstance(v, (list, tuple)) else list(v)
+            if lazy and isinstance(v, (list, tuple)):
+                return v
+            if isinstance(v, (list, tuple, dict, set, frozenset, str, bytes, bytearray, range)) or hasattr(v, '__len__'):
+                return list(v)
+            # an iterator of unknown (possibly infinite) length, e.g. itertools.count(): never materialise it
+            cap = self.DEFAULT_LOOP_CAP
+            if lazy:
+                def capped(it=iter(v)):
+                    for k, x in enumerate(it):
+                        if k >= cap:
+                            raise Unsupported('iteration over %s exceeds %d elements (no loop contract)' % (type(v).__name__, cap))
+                        yield x
+                return capped()
+            import itertools as _it
+            items = list(_it.islice(iter(v), cap + 1))
+            if len(items) > cap:
+                raise Unsupported('iteration over %s exceeds %d elements' % (type(v).__name__, cap))
+            return items
         except INTERNAL:
             raise
         except Exception as e:
